@@ -203,6 +203,7 @@ Proof.
       * inversion H; subst; clear H. destruct I as [I1 I2 I3 I4 I5]. constructor; simpl in *; intros; auto; try (eapply I5; eassumption).
         rewrite PC in I3; simpl in *. lia.
     + destruct I as [I1 I2 I3 I4 I5]; brk; constructor; simpl in *; intros; auto; rewrite ?Heql0 in *; simpl; auto; try discriminate.
+    + destruct I as [I1 I2 I3 I4 I5]; inversion H; subst; constructor; simpl in *; intros; auto; try (eapply I5; eassumption).
 Qed.
 
 Lemma run_inv : forall ls s s', inv s -> run s ls = Some s' -> inv s'.
@@ -253,6 +254,7 @@ Proof.
   - destruct (pC2 s) eqn:PC; try (eapply SC; eassumption); try (eapply CC; eassumption).
     inversion H; subst; simpl; repeat split; auto.
   - brk; simpl; repeat split; auto.
+  - inversion H; subst; simpl; repeat split; auto.
 Qed.
 
 (* --- every wait point of an affected call has an enabled exit once the session is closed ----------------- *)
@@ -320,6 +322,7 @@ Proof.
   - destruct (pC2 s) eqn:PC; try (eapply SC; eassumption); try (eapply CC; eassumption).
     inversion H; subst; reflexivity.
   - brk; reflexivity.
+  - inversion H; subst; reflexivity.
 Qed.
 
 Lemma run_closed : forall ls s s', run s ls = Some s' -> closedChan s = true -> closedChan s' = true.
@@ -415,17 +418,26 @@ Proof. vm_compute. eexists. repeat split; reflexivity. Qed.
 (* the underlay / mux Close sets the connection deadline first: from then on the stalled write returns, the lock
    is released and the closing sequence completes *)
 Lemma underlay_close_releases : forall s, run (init true true) stall_trace = Some s ->
-  exists s', run s [ACallUnderlayClose; TO; TO; TO; TC1; TC1; TC1; TO; TI; TU; TU; TU] = Some s'
+  exists s', run s [ACallUnderlayClose; TO; TO; TO; TC1; TC1; TC1; TO; TI; TU; TU; TU; TU] = Some s'
     /\ closedChan s' = true /\ pC1 s' = CRet /\ pO s' = LExited /\ pI s' = LExited /\ pU s' = URet /\ udone s' = true /\ nclosed s' = 1.
 Proof.
   intros s H. vm_compute in H. inversion H; subst; clear H. vm_compute. eexists. repeat split; reflexivity.
 Qed.
 
-(* the event loop re-arms its long read timeout if it wakes up before done is closed: it then leaves only when the
-   timeout fires or a segment arrives *)
-Lemma event_loop_can_rearm :
-  exists s, run (init true true) [TE; ACallUnderlayClose; TE; TE; TU; TU] = Some s
-    /\ pE s = ERead /\ connDL s = true /\ closeRequested s = true.
+(* BEFORE the fix (variant fixedLoop = false): the event loop, woken by the first SetDeadline(now), finds done still
+   open, re-arms its long read timeout (which replaces the past deadline) and blocks in the read; the underlay Close
+   then finishes - and the loop stays in the read until the timeout fires or a segment arrives: a Mux.Close that waits
+   for its event loops waits that long *)
+Definition rearm_trace : list label := [TE; TE; ACallUnderlayClose; TE; TE; TE; TU; TU; TU; TU; TO; TI; TU].
+
+Lemma event_loop_rearm_before_fix :
+  exists s, run (init_vv false false true true) rearm_trace = Some s
+    /\ pU s = URet /\ udone s = true /\ pE s = ERead /\ readDL s = false /\ step TE s = None.
+Proof. vm_compute. eexists. repeat split; reflexivity. Qed.
+
+(* the same schedule on the fixed code: the second SetDeadline(now) comes after close(done) and wakes the read *)
+Lemma event_loop_rearm_trace_fixed :
+  exists s, run (init true true) (rearm_trace ++ [TU; TE; TE]) = Some s /\ pU s = URet /\ pE s = EExited.
 Proof. vm_compute. eexists. repeat split; reflexivity. Qed.
 
 (* closed exactly once; later Close calls are no-ops that return *)
@@ -487,6 +499,7 @@ Proof.
   - destruct (pC2 s) eqn:PC; try (eapply SC; eassumption); try (eapply CC; eassumption).
     inversion H; subst; reflexivity.
   - brk; reflexivity.
+  - inversion H; subst; reflexivity.
 Qed.
 
 Lemma run_keepLock : forall ls s s', run s ls = Some s' -> keepLock s' = keepLock s.
@@ -568,6 +581,125 @@ Proof. vm_compute. eexists. repeat split; try reflexivity. discriminate. Qed.
 
 (* the same trace under the code's discipline (lock released first) ends with everything closed and returned *)
 Lemma output_error_close_code_completes :
-  exists s, run (init true true) (self_deadlock_trace ++ [TO; TO; TO; TO; TO; TI; TR; TU]) = Some s
+  exists s, run (init true true) (self_deadlock_trace ++ [TO; TO; TO; TO; TO; TI; TR; TU; TU]) = Some s
     /\ closedChan s = true /\ nclosed s = 1 /\ pO s = LExited /\ pI s = LExited /\ pR s = RRet EOF /\ pU s = URet /\ udone s = true.
 Proof. vm_compute. eexists. repeat split; reflexivity. Qed.
+
+
+(* --- the underlay event loop after the underlay Close (fixed code) ---------------------------------------- *)
+
+Definition invK (s : state) : Prop := (pU s = USecondDL \/ pU s = URet) -> udone s = true.
+
+Lemma invK_init : forall k f c a, invK (init_vv k f c a).
+Proof. intros k f c a [H|H]; discriminate H. Qed.
+
+Lemma step_fixedLoop : forall l s s', step l s = Some s' -> fixedLoop s' = fixedLoop s.
+Proof.
+  intros l s s' H.
+  assert (CC : forall one s s', call_close one s = Some s' -> fixedLoop s' = fixedLoop s).
+  { clear. intros one s s' H. unfold call_close, close_begin in H. destruct one; simpl in H; brk; reflexivity. }
+  assert (SC : forall one s s', step_closer one s = Some s' -> fixedLoop s' = fixedLoop s).
+  { clear. intros one s s' H. unfold step_closer in H. destruct one; simpl in H; brk; reflexivity. }
+  destruct l; simpl in H; try (eapply SC; eassumption); try (eapply CC; eassumption).
+  all: try (brk; reflexivity).
+  destruct (pU s) eqn:PU; try discriminate.
+  - destruct (pC2 s) eqn:PC; try (eapply SC; eassumption); try (eapply CC; eassumption).
+    inversion H; subst; reflexivity.
+  - brk; reflexivity.
+  - inversion H; subst; reflexivity.
+Qed.
+
+(* frame: closers do not touch the underlay / event-loop part of the state *)
+Lemma closer_frame : forall s s', (exists one, call_close one s = Some s' \/ step_closer one s = Some s') ->
+  pU s' = pU s /\ pE s' = pE s /\ udone s' = udone s /\ readDL s' = readDL s /\ tickPending s' = tickPending s /\ fixedLoop s' = fixedLoop s.
+Proof.
+  intros s s' [one [H|H]].
+  - unfold call_close, close_begin in H. destruct one; simpl in H; brk; simpl; auto 10.
+  - unfold step_closer in H. destruct one; simpl in H; brk; simpl; auto 10.
+Qed.
+
+Lemma step_invK : forall l s s', invK s -> step l s = Some s' -> invK s'.
+Proof.
+  intros l s s' K H. unfold invK in *.
+  destruct l; simpl in H;
+    try (destruct (closer_frame s s' ltac:(eexists; eauto)) as (A & _ & C & _); rewrite A, C; exact K).
+  all: try (brk; simpl in *; intros X; try (destruct X; discriminate); try (specialize (K X)); auto; congruence).
+  destruct (pU s) eqn:PU; try discriminate.
+  - destruct (pC2 s) eqn:PC;
+      try (destruct (closer_frame s s' ltac:(eexists; eauto)) as (A & _ & C & _); rewrite A, C, PU; intros [X|X]; discriminate X).
+    inversion H; subst; simpl. intros [X|X]; discriminate X.
+  - brk; simpl; auto.
+  - inversion H; subst; simpl. intros _. apply K. auto.
+  - destruct (pU s) eqn:PU; try discriminate. inversion H; subst; simpl. rewrite PU. intros [X|X]; discriminate X.
+Qed.
+
+(* J: the underlay Close of the fixed code has returned *)
+Definition released (s : state) : Prop :=
+  fixedLoop s = true /\ pU s = URet /\ udone s = true /\ (pE s = ERead -> readDL s = true).
+
+Lemma released_established : forall s s', invK s -> fixedLoop s = true -> pU s = USecondDL -> step TU s = Some s' -> released s'.
+Proof.
+  intros s s' K F P H. simpl in H. rewrite P in H. inversion H; subst; simpl. repeat split; auto.
+Qed.
+
+Lemma released_step : forall l s s', released s -> step l s = Some s' -> released s'.
+Proof.
+  intros l s s' (F & P & D & R) H. unfold released.
+  destruct l; simpl in H;
+    try (destruct (closer_frame s s' ltac:(eexists; eauto)) as (A & B & C & E & _ & G);
+         rewrite G, A, B, C, E; auto; fail).
+  all: try (rewrite ?P in H; brk; simpl in *; repeat split; auto; try discriminate; try congruence; fail).
+  all: try (rewrite ?P, ?F, ?D in H; simpl in H; brk; simpl in *; repeat split; auto; try discriminate; try congruence; fail).
+Qed.
+
+Lemma released_progress : forall s, released s -> pE s <> EExited ->
+  exists s', step TE s = Some s' /\ mEv s' < mEv s.
+Proof.
+  intros s (F & P & D & R) NE. unfold mEv. simpl.
+  destruct (pE s) eqn:PE; try congruence.
+  - destruct (tickPending s) eqn:T; [|rewrite D]; eexists; (split; [reflexivity|]); simpl; rewrite ?PE, ?T; simpl; lia.
+  - rewrite F, D. eexists; (split; [reflexivity|]); simpl; destruct (tickPending s); simpl; lia.
+  - rewrite (R eq_refl). eexists; (split; [reflexivity|]); simpl; destruct (tickPending s); simpl; lia.
+  - rewrite D, !orb_true_r. eexists; (split; [reflexivity|]); simpl; destruct (tickPending s); simpl; lia.
+Qed.
+
+Lemma released_others_do_not_delay : forall l s s', released s -> step l s = Some s' -> l <> TE -> mEv s' <= mEv s.
+Proof.
+  intros l s s' (F & P & D & R) H N. unfold mEv.
+  destruct l; try congruence; simpl in H;
+    try (destruct (closer_frame s s' ltac:(eexists; eauto)) as (_ & B & _ & _ & T & _); rewrite B, T; lia).
+  all: try (rewrite ?P in H; brk; simpl; try lia; destruct (tickPending s); simpl; lia).
+Qed.
+
+Lemma run_invK : forall ls s0 s, invK s0 -> run s0 ls = Some s -> invK s.
+Proof.
+  induction ls; simpl; intros s0 s K H; [inversion H; subst; auto|].
+  destruct (step a s0) eqn:E; [|discriminate]. eapply IHls; [eapply step_invK; eauto|eauto].
+Qed.
+
+Lemma run_fixedLoop : forall ls s0 s, run s0 ls = Some s -> fixedLoop s = fixedLoop s0.
+Proof.
+  induction ls; simpl; intros s0 s H; [inversion H; reflexivity|].
+  destruct (step a s0) eqn:E; [|discriminate]. rewrite (IHls _ _ H). eapply step_fixedLoop; eauto.
+Qed.
+
+(* once the underlay Close of the fixed code has returned, the event loop leaves within 6 of its own steps in every
+   interleaving: it never waits for the read timeout; a Mux.Close that waits for its event loops is bounded *)
+Lemma underlay_close_releases_event_loop_all :
+  (forall s s', invK s -> fixedLoop s = true -> pU s = USecondDL -> step TU s = Some s' -> released s')
+  /\ (forall l s s', released s -> step l s = Some s' -> released s')
+  /\ (forall s, released s -> pE s <> EExited -> exists s', step TE s = Some s' /\ mEv s' < mEv s)
+  /\ (forall l s s', released s -> step l s = Some s' -> l <> TE -> mEv s' <= mEv s)
+  /\ (forall s, mEv s <= 6) /\ (forall s, mEv s = 0 -> pE s = EExited)
+  /\ (forall c a ls s, run (init c a) ls = Some s -> invK s /\ fixedLoop s = true).
+Proof.
+  split; [exact released_established|].
+  split; [exact released_step|].
+  split; [exact released_progress|].
+  split; [exact released_others_do_not_delay|].
+  split; [intros s; unfold mEv; destruct (pE s), (tickPending s); simpl; lia|].
+  split; [intros s; unfold mEv; destruct (pE s), (tickPending s); simpl; intros; try reflexivity; lia|].
+  intros c a ls s H. split.
+  - eapply run_invK; [apply invK_init|exact H].
+  - rewrite (run_fixedLoop _ _ _ H). reflexivity.
+Qed.
